@@ -122,6 +122,64 @@ theorem kcenters_greedy (D : Table) (n : Nat) (cfg : Cfg) (res : Result)
   · intro f hf; rw [he] at hf ⊢; rw [ltE_iff]; exact argmaxE_first n _ f hf
   · intro hp; rw [hp] at hs; exact RMin_iterN _ _ _ hs
 
+/-- The greedy rule for `use_triangle_inequality=True`, stated against the **true** running minimum:
+for a symmetric table with the triangle inequality on the frames and a cold start or `GoodInit`, the
+`j`-th frame chosen by the shortcut run is the first index attaining the maximum of `pj.dist`, where
+`pj` is the state of the *plain* algorithm after `j` iterations, whose `dist` is the running minimum
+of the distances to the centers chosen so far (the same centers in both runs). -/
+theorem kcenters_greedy_shortcut (D : Table) (n : Nat) (cfg : Cfg) (res : Result)
+    (symm : ∀ x y, x < n → y < n → D x y = D y x)
+    (tri : ∀ x y z, x < n → y < n → z < n → D x z ≤ D x y + D y z)
+    (hinit : cfg.init = none ∨ ∃ cs, cfg.init = some cs ∧ GoodInit D n cs)
+    (htri : cfg.tri = true) (h : kcenters D n cfg = .ok res) (j : Nat) (hj : j < res.trace.length) :
+    ∃ pj : St, iterN D n false j (initState D n cfg.init) = .ok pj ∧
+      RMin D pj.dist pj.centers ∧
+      pj.centers = (initState D n cfg.init).centers ++ (chosen res).take j ∧
+      (res.trace[j]).1 < n ∧
+      (res.trace[j]).2 = pj.dist (res.trace[j]).1 ∧
+      (∀ f, f < n → leE (pj.dist f) (pj.dist (res.trace[j]).1) = true) ∧
+      (∀ f, f < (res.trace[j]).1 → ltE (pj.dist f) (pj.dist (res.trace[j]).1) = true) := by
+  have hag := kcenters_tri_agree D n cfg symm tri hinit
+  have e : ({ cfg with tri := true } : Cfg) = cfg := by cases cfg; simp_all
+  rw [e, h] at hag
+  cases hplain : kcenters D n { cfg with tri := false } with
+  | error e' => rw [hplain] at hag; exact hag.elim
+  | ok r1 =>
+    rw [hplain] at hag
+    obtain ⟨_, htr, _⟩ := hag
+    have hj1 : j < r1.trace.length := by rw [htr]; exact hj
+    obtain ⟨pj, hs, _, _, h4, h5, h6, h7, h8⟩ :=
+      kcenters_greedy D n { cfg with tri := false } r1 hplain j hj1
+    have hget : r1.trace[j] = res.trace[j] := by simp [htr]
+    rw [hget] at h4 h5 h6 h7
+    refine ⟨pj, hs, h8 rfl, ?_, h4, h5, h6, h7⟩
+    -- the centers of pj: supplied ones, then the first j chosen frames
+    obtain ⟨nc, cut, _, _, _, hl, _⟩ := kcenters_ok hplain
+    obtain ⟨_, _, lsp⟩ := loop_spec _ _ _ _ hl
+    have : ∀ (i : Nat) (hi : i ≤ r1.trace.length) (si : St),
+        iterN D n false i (initState D n cfg.init) = .ok si →
+        si.centers = (initState D n cfg.init).centers ++ (r1.trace.map Prod.fst).take i := by
+      intro i
+      induction i with
+      | zero =>
+        intro _ si hsi
+        simp only [iterN] at hsi
+        injection hsi with hsi
+        subst hsi; simp
+      | succ i ih =>
+        intro hi si hsi
+        obtain ⟨sj, hsj, _, he⟩ := lsp i (by omega)
+        have hstep := iterN_succ_right i _ sj hsj
+        rw [hsi] at hstep
+        have hc := iter_centers hstep.symm
+        rw [hc, ih (by omega) sj hsj]
+        have : (r1.trace.map Prod.fst).take (i+1) =
+            (r1.trace.map Prod.fst).take i ++ [argmaxE n sj.dist] := by
+          rw [List.take_succ_eq_append_getElem (by simp; omega)]
+          simp [he]
+        rw [this, List.append_assoc]
+    rw [this j (by omega) pj hs, htr]; rfl
+
 /-! ## radius never grows -/
 
 theorem radius_antitone (D : Table) (n : Nat) (cfg : Cfg) (res : Result)
@@ -142,43 +200,104 @@ example : radii { st := St.cold, trace := [(0, none), (1, some 4), (4, some 2)],
 def Covers (D : Table) (n : Nat) (S : List Nat) (R : Rat) : Prop :=
   ∀ f, f < n → ∃ x ∈ S, D f x ≤ R
 
-/-- For a symmetric table with the triangle inequality (on the frames), a cold start, any stopping
-criteria, with or without the shortcut: if the call returns `m ≥ 1` centers then its covering radius
-is finite and at most twice the covering radius of **every** set `S` of at most `m` frames
-(`R` ranges over all radii within which `S` covers, so in particular the least one). -/
-theorem gonzalez_two_approx (D : Table) (n : Nat) (cfg : Cfg) (res : Result)
+/-- The true statement for every start: for a symmetric table with the triangle inequality on the
+frames, any stopping criteria, cold or warm start (with the shortcut: cold start or `GoodInit`): if
+the loop added `t ≥ 1` centers then the final covering radius is finite and at most twice the
+covering radius of **every** set `S` of at most `t` frames (`R` ranges over all radii within which
+`S` covers, so in particular the least one).  The `t` added centers and the farthest remaining
+frame are `t+1` frames pairwise at least the final radius apart; two of them share a center of `S`. -/
+theorem gonzalez_two_approx_added (D : Table) (n : Nat) (cfg : Cfg) (res : Result)
     (symm : ∀ x y, x < n → y < n → D x y = D y x)
     (tri : ∀ x y z, x < n → y < n → z < n → D x z ≤ D x y + D y z)
-    (hcold : cfg.init = none) (h : kcenters D n cfg = .ok res)
-    (S : List Nat) (hSne : S ≠ []) (hS : ∀ x ∈ S, x < n) (hcard : S.length ≤ res.st.ctrInds.length)
+    (hmode : cfg.tri = false ∨ cfg.init = none ∨ ∃ cs, cfg.init = some cs ∧ GoodInit D n cs)
+    (h : kcenters D n cfg = .ok res)
+    (S : List Nat) (hSne : S ≠ []) (hS : ∀ x ∈ S, x < n) (hcard : S.length ≤ res.trace.length)
     (R : Rat) (hR : Covers D n S R) :
     ∃ r : Rat, res.radius = some r ∧ r ≤ 2 * R := by
   have hpos : 0 < S.length := List.length_pos_of_ne_nil hSne
-  -- reduce to the plain run
-  have key : ∀ (cfg' : Cfg) (res' : Result), cfg'.init = none → cfg'.tri = false →
-      kcenters D n cfg' = .ok res' → S.length ≤ res'.st.ctrInds.length →
+  have key : ∀ (cfg' : Cfg) (res' : Result), cfg'.tri = false →
+      kcenters D n cfg' = .ok res' → S.length ≤ res'.trace.length →
       ∃ r : Rat, res'.radius = some r ∧ r ≤ 2 * R := by
-    intro cfg' res' hc hp hk hcard'
-    obtain ⟨hn, fa, hr⟩ := plain_cold_FarApart hc hp hk
+    intro cfg' res' hp hk hcard'
+    obtain ⟨hn, fa, hr, hlen⟩ := plain_FarApart hp hk
     rw [hr]
-    have hne : res'.st.centers ≠ [] := by
-      intro he
-      have : res'.st.ctrInds.length = 0 := by rw [fa.same, he]; rfl
-      omega
-    exact FarApart_two_approx hn fa symm tri S hS (by rw [← fa.same]; exact hcard') R hR hne
+    exact FarApart_two_approx hn fa symm tri S hS (by omega) R hR (by omega)
   cases htri : cfg.tri with
-  | false => exact key cfg res hcold htri h hcard
+  | false => exact key cfg res htri h hcard
   | true =>
-    have hag := kcenters_tri_agree D n cfg symm tri (Or.inl hcold)
+    have hinit : cfg.init = none ∨ ∃ cs, cfg.init = some cs ∧ GoodInit D n cs := by
+      rcases hmode with hm | hm
+      · rw [htri] at hm; cases hm
+      · exact hm
+    have hag := kcenters_tri_agree D n cfg symm tri hinit
     have e : ({ cfg with tri := true } : Cfg) = cfg := by cases cfg; simp_all
     rw [e, h] at hag
     cases hplain : kcenters D n { cfg with tri := false } with
     | error e' => rw [hplain] at hag; exact hag.elim
     | ok r1 =>
       rw [hplain] at hag
-      obtain ⟨hst, _, hrad⟩ := hag
+      obtain ⟨_, htr, hrad⟩ := hag
       rw [← hrad]
-      exact key { cfg with tri := false } r1 hcold rfl hplain (by rw [hst.1]; exact hcard)
+      exact key { cfg with tri := false } r1 rfl hplain (by rw [htr]; exact hcard)
+
+/-- The property's sentence read for every start: "the final radius is at most twice the optimal
+radius for that many centers" with `that many` = all returned centers, supplied ones included.
+**False** for warm starts (`gonzalez_two_approx_counterexample`) — and false for every
+farthest-first continuation, not a defect of this code: badly placed supplied centers are kept, so
+with `n_clusters = |init_centers|` no center is added at all.  What does hold for warm starts is
+`gonzalez_two_approx_added` (optimal radius for as many centers as were *added*). -/
+def C02_gonzalez_two_approx_full : Prop :=
+  ∀ (D : Table) (n : Nat) (cfg : Cfg) (res : Result),
+    (∀ x y, x < n → y < n → D x y = D y x) →
+    (∀ x y z, x < n → y < n → z < n → D x z ≤ D x y + D y z) →
+    (∀ cs, cfg.init = some cs → GoodInit D n cs) →
+    kcenters D n cfg = .ok res →
+    ∀ (S : List Nat), S ≠ [] → (∀ x ∈ S, x < n) → S.length ≤ res.st.ctrInds.length →
+    ∀ (R : Rat), Covers D n S R → ∃ r : Rat, res.radius = some r ∧ r ≤ 2 * R
+
+/-- Cold start (the case Gonzalez' theorem is about): all `m ≥ 1` returned centers count.
+Missing w.r.t. `C02_gonzalez_two_approx_full`: warm starts, where the statement is false. -/
+theorem gonzalez_two_approx_partial (D : Table) (n : Nat) (cfg : Cfg) (res : Result)
+    (symm : ∀ x y, x < n → y < n → D x y = D y x)
+    (tri : ∀ x y z, x < n → y < n → z < n → D x z ≤ D x y + D y z)
+    (hcold : cfg.init = none) (h : kcenters D n cfg = .ok res)
+    (S : List Nat) (hSne : S ≠ []) (hS : ∀ x ∈ S, x < n) (hcard : S.length ≤ res.st.ctrInds.length)
+    (R : Rat) (hR : Covers D n S R) :
+    ∃ r : Rat, res.radius = some r ∧ r ≤ 2 * R := by
+  have hlen : res.st.ctrInds.length = res.trace.length := by
+    rw [((kcenters_first_center D n cfg res h).1 hcold).1]; simp [chosen]
+  exact gonzalez_two_approx_added D n cfg res symm tri (Or.inr (Or.inl hcold)) h S hSne hS
+    (by omega) R hR
+
+/-- Witness: `line5`, supplied centers = frames 0 and 2 (positions 0 and 1), `n_clusters = 2`: no
+center is added, the radius stays 3, but frames 2 and 3 (positions 1 and 3) cover within 1. -/
+theorem gonzalez_two_approx_counterexample : ¬ C02_gonzalez_two_approx_full := by
+  intro hfull
+  have hv : view 5 (kcenters line5 5 { nClusters := .fin 2, init := some [0, 2] }) =
+      some ⟨[0, 2], [0, 2], [0, 1, 1, 1, 1], [some 0, some 3, some 0, some 2, some 1], [],
+        some 3⟩ := by decide
+  cases hk : kcenters line5 5 { nClusters := .fin 2, init := some [0, 2] } with
+  | error e => rw [hk] at hv; simp [view] at hv
+  | ok res =>
+    rw [hk] at hv
+    simp only [view, Option.some.injEq, View.mk.injEq] at hv
+    obtain ⟨hci, _, _, _, _, hrad⟩ := hv
+    have hgood : GoodInit line5 5 [0, 2] :=
+      ⟨by decide, by decide, by decide, by decide,
+       fun i j hi hj => (by decide : ∀ i, i < 5 → ∀ j, j < 5 → i ≠ j → 0 < line5 i j) i hi j hj⟩
+    obtain ⟨r, hr, hle⟩ := hfull line5 5 { nClusters := .fin 2, init := some [0, 2] } res
+      (fun x y _ _ => lineTable_symm _ x y) (fun x y z _ _ _ => lineTable_tri _ x y z)
+      (by intro cs hcs; injection hcs with hcs; subst hcs; exact hgood)
+      hk [2, 3] (by decide) (by decide) (by rw [hci]; decide) 1 (by unfold Covers; decide)
+    rw [hrad] at hr
+    injection hr with hr
+    rw [← hr] at hle
+    exact absurd hle (by decide +kernel)
+
+/-- warm start where `gonzalez_two_approx_added` applies: from frames 0 and 2 two centers are added -/
+example : view 5 (kcenters line5 5 { nClusters := .fin 4, init := some [0, 2] }) =
+    some ⟨[0, 2, 1, 3], [0, 2, 1, 3], [0, 2, 1, 3, 1], [some 0, some 0, some 0, some 0, some 1],
+      [(1, some 3), (3, some 1)], some 1⟩ := by decide
 
 example : (∀ x y, x < 5 → y < 5 → line5 x y = line5 y x) ∧
     (∀ x y z, x < 5 → y < 5 → z < 5 → line5 x z ≤ line5 x y + line5 y z) ∧
@@ -241,7 +360,7 @@ example : view 3 (kcenters line5 3 { nClusters := .fin 0 }) =
 normalised criteria are `(k, q)` then for every set `S` of at most `k` frames the final radius is
 at most `max (2·R) q` (with `n_clusters` only, `q = 0`): the run either reached `k` centers or
 stopped because the radius was already `≤ q`. -/
-theorem gonzalez_two_approx_n_clusters (D : Table) (n : Nat) (cfg : Cfg) (res : Result)
+theorem gonzalez_two_approx_n_clusters_partial (D : Table) (n : Nat) (cfg : Cfg) (res : Result)
     (symm : ∀ x y, x < n → y < n → D x y = D y x)
     (tri : ∀ x y z, x < n → y < n → z < n → D x z ≤ D x y + D y z)
     (hcold : cfg.init = none) (h : kcenters D n cfg = .ok res)
@@ -257,7 +376,7 @@ theorem gonzalez_two_approx_n_clusters (D : Table) (n : Nat) (cfg : Cfg) (res : 
   rcases hend with ⟨k', hk', hle⟩ | hle
   · injection hk' with hk'
     subst hk'
-    obtain ⟨r, hr, hle'⟩ := gonzalez_two_approx D n cfg res symm tri hcold h S hSne hS
+    obtain ⟨r, hr, hle'⟩ := gonzalez_two_approx_partial D n cfg res symm tri hcold h S hSne hS
       (by exact_mod_cast le_trans hcard hle) R hR
     exact ⟨r, hr, le_trans hle' (le_max_left _ _)⟩
   · rw [leE_iff] at hle
